@@ -291,15 +291,30 @@ type c02Decl struct {
 	K       int
 	Record  bool
 	Members []c02Member
+	Builtin bool // not declared in the prelude (the type any)
+}
+
+var c02Any = c02Named("any")
+
+// a record with a field of type any: every value is accepted for that field
+func (d *c02Decl) hasAnyField() bool {
+	for _, m := range d.Members {
+		if m.Ty != nil && c02Eq(m.Ty, c02Any) {
+			return true
+		}
+	}
+	return false
 }
 
 var c02Decls = []*c02Decl{
-	{"Rec", 0, true, []c02Member{{"RX", c02Int}, {"RS", c02Str}}},
-	{"Pt", 0, true, []c02Member{{"PA", c02Int}, {"PB", c02Int}, {"PL", c02Slice(c02Str)}}},
-	{"Box", 1, true, []c02Member{{"BV", c02Var(0)}, {"BN", c02Int}}},
-	{"Two", 2, true, []c02Member{{"TL", c02Var(0)}, {"TR", c02Var(1)}}},
-	{"Shp", 0, false, []c02Member{{"Circ", c02Int}, {"Sq", c02Str}, {"Dot", nil}, {"Seg", c02Tuple(c02Int, c02Int)}}},
-	{"Opt", 1, false, []c02Member{{"Som", c02Var(0)}, {"Non", nil}}},
+	{Name: "any", Record: true, Builtin: true},
+	{Name: "Ent", Record: true, Members: []c02Member{{"ETag", c02Str}, {"EPay", c02Any}}},
+	{"Rec", 0, true, []c02Member{{"RX", c02Int}, {"RS", c02Str}}, false},
+	{"Pt", 0, true, []c02Member{{"PA", c02Int}, {"PB", c02Int}, {"PL", c02Slice(c02Str)}}, false},
+	{"Box", 1, true, []c02Member{{"BV", c02Var(0)}, {"BN", c02Int}}, false},
+	{"Two", 2, true, []c02Member{{"TL", c02Var(0)}, {"TR", c02Var(1)}}, false},
+	{"Shp", 0, false, []c02Member{{"Circ", c02Int}, {"Sq", c02Str}, {"Dot", nil}, {"Seg", c02Tuple(c02Int, c02Int)}}, false},
+	{"Opt", 1, false, []c02Member{{"Som", c02Var(0)}, {"Non", nil}}, false},
 }
 
 func c02DeclOf(name string) *c02Decl {
@@ -315,6 +330,9 @@ func c02DeclOf(name string) *c02Decl {
 func c02PreludeFor(text string) string {
 	var b strings.Builder
 	for _, d := range c02Decls {
+		if d.Builtin {
+			continue
+		}
 		if text != "" {
 			need := strings.Contains(text, d.Name)
 			for _, m := range d.Members {
@@ -386,6 +404,24 @@ type c02Sig struct {
 	Res  *c02Ty   `json:"res"`
 	User bool     `json:"user,omitempty"`
 	Foi  string   `json:"-"` // the line of pkg_all.foi this entry transcribes
+	// used by the families only (a literal format string without verbs would trip go vet's printf check)
+	FamOnly bool `json:"-"`
+}
+
+// the signature as callers see it: a parameter declared any accepts every value (fc's compositeTp
+// produces no relation for a non-variable argument against the concrete type any), i.e. it is a fresh
+// type variable per reference
+func (s *c02Sig) forCallers() *c02Sig {
+	n := &c02Sig{Name: s.Name, K: s.K, Res: s.Res, User: s.User}
+	for _, a := range s.Args {
+		if c02Eq(a, c02Any) {
+			n.Args = append(n.Args, c02Var(n.K))
+			n.K++
+		} else {
+			n.Args = append(n.Args, a)
+		}
+	}
+	return n
 }
 
 func (s *c02Sig) sexp() string {
@@ -401,6 +437,7 @@ var c02Lib = func() []*c02Sig {
 	f1 := func(x, r *c02Ty) *c02Ty { return c02Fun([]*c02Ty{x}, r) }
 	return []*c02Sig{
 		{Name: "frt.Fst", K: 2, Args: []*c02Ty{c02Tuple(a, b)}, Res: a, Foi: "let Fst<T, U> : T*U->T"},
+		{Name: "frt.Sprintf1", K: 1, Args: []*c02Ty{c02Str, a}, Res: c02Str, Foi: "let Sprintf1<T>: string->T->string", FamOnly: true},
 		{Name: "frt.Snd", K: 2, Args: []*c02Ty{c02Tuple(a, b)}, Res: b, Foi: "let Snd<T, U> : T*U->U"},
 		{Name: "slice.Length", K: 1, Args: []*c02Ty{c02Slice(a)}, Res: c02Int, Foi: "let Length<T>: []T -> int"},
 		{Name: "slice.Head", K: 1, Args: []*c02Ty{c02Slice(a)}, Res: a, Foi: "let Head<T>: []T -> T"},
@@ -513,6 +550,13 @@ func (e *c02Exp) inline() string {
 		return "(" + e.Name + " " + strings.Join(xs, " ") + ")"
 	case "callp":
 		return "(" + e.Name + " " + strings.Join(xs, " ") + ")"
+	case "pipe": // x |> f, f a function-typed local
+		return "(" + xs[0] + " |> " + e.Name + ")"
+	case "pipeg": // x |> g a b, g a global applied to all but its last argument
+		if len(xs) == 1 {
+			return "(" + xs[0] + " |> " + e.Name + ")"
+		}
+		return "(" + xs[len(xs)-1] + " |> " + e.Name + " " + strings.Join(xs[:len(xs)-1], " ") + ")"
 	case "lam":
 		return "(fun " + strings.Join(e.Xs, " ") + " -> " + xs[0] + ")"
 	}
@@ -559,6 +603,10 @@ func (e *c02Exp) sexp(blind bool) string {
 	case "arith", "cmp", "eq", "tuple", "slice", "if":
 		return "(" + e.K + " " + j + ")"
 	case "record":
+		if c02DeclOf(e.Name).hasAnyField() {
+			// a field of type any accepts every value: construction = a function generic in that field
+			return "(global " + Sq("?mk:"+e.Name) + " " + j + ")"
+		}
 		return "(record " + Sq(e.Name) + " " + j + ")"
 	case "ctor":
 		if j == "" {
@@ -575,8 +623,10 @@ func (e *c02Exp) sexp(blind bool) string {
 			return "(global " + Sq(e.Name) + ")"
 		}
 		return "(global " + Sq(e.Name) + " " + j + ")"
-	case "callp":
+	case "callp", "pipe":
 		return "(callp " + Sq(e.Name) + " " + j + ")"
+	case "pipeg":
+		return "(global " + Sq(e.Name) + " " + j + ")"
 	case "let":
 		return "(let " + Sq(e.Name) + " " + j + ")"
 	case "lettup":
@@ -605,6 +655,27 @@ func (e *c02Exp) blindName() string {
 		return "?blind"
 	}
 	return "?blind:" + e.Ty.sexp()
+}
+
+// table entries of the constructors of records with any-fields used in a body
+func (e *c02Exp) mkSigs(out map[string]string) {
+	if e.K == "record" && c02DeclOf(e.Name).hasAnyField() {
+		d := c02DeclOf(e.Name)
+		var as []string
+		k := 0
+		for _, m := range d.Members {
+			if c02Eq(m.Ty, c02Any) {
+				as = append(as, fmt.Sprintf("(tv %d)", k))
+				k++
+			} else {
+				as = append(as, m.Ty.sexp())
+			}
+		}
+		out["?mk:"+e.Name] = fmt.Sprintf("(%s %d (%s) %s)", Sq("?mk:"+e.Name), k, strings.Join(as, " "), c02Named(e.Name).sexp())
+	}
+	for _, a := range e.Args {
+		a.mkSigs(out)
+	}
 }
 
 // table entries of the blind stand-ins used in a body
@@ -656,7 +727,8 @@ type c02Func struct {
 	Body   *c02Exp    `json:"body"`
 	// by-construction signature; valid for every variant that erases only annotations marked Red
 	Expect string         `json:"expect,omitempty"`
-	Feats  map[string]int `json:"-"` // generator-side feature counts (evidence only)
+	Ret    *c02Ty         `json:"ret,omitempty"` // result annotation (ground): let f a b : T = ...
+	Feats  map[string]int `json:"-"`             // generator-side feature counts (evidence only)
 }
 type c02Prog struct {
 	ID     int        `json:"id"`
@@ -708,6 +780,9 @@ func (p *c02Prog) funcSource(fi int, mask uint) string {
 			b.WriteString(" " + pa.Name)
 		}
 	}
+	if f.Ret != nil {
+		b.WriteString(" : " + f.Ret.fo())
+	}
 	b.WriteString(" =\n")
 	b.WriteString(strings.Join(f.Body.block("  "), "\n"))
 	b.WriteString("\n\n")
@@ -748,7 +823,27 @@ func (p *c02Prog) fnSexp(fi int, mask uint, blind bool) string {
 			ps = append(ps, "("+Sq(pa.Name)+" _)")
 		}
 	}
-	return "(fn " + Sq(f.Name) + " (" + strings.Join(ps, " ") + ") " + f.Body.sexp(blind) + ")"
+	body := f.Body.sexp(blind)
+	if f.Ret != nil {
+		// a result annotation = the body passed through the identity at the annotated (ground) type
+		body = "(global " + Sq("?ret:"+f.Ret.sexp()) + " " + body + ")"
+	}
+	return "(fn " + Sq(f.Name) + " (" + strings.Join(ps, " ") + ") " + body + ")"
+}
+
+// synthetic table entries a function needs: result ascription, constructors of records with any-fields
+func (f *c02Func) extraSigs() []string {
+	m := map[string]string{}
+	f.Body.mkSigs(m)
+	if f.Ret != nil {
+		n := "?ret:" + f.Ret.sexp()
+		m[n] = "(" + Sq(n) + " 0 (" + f.Ret.sexp() + ") " + f.Ret.sexp() + ")"
+	}
+	var out []string
+	for _, k := range SortedKeys(m) {
+		out = append(out, m[k])
+	}
+	return out
 }
 
 // ---------------------------------------------------------------- tiny s-expression reader (oracle answers)
